@@ -65,3 +65,46 @@ func TestDemoCrossGraphDocID(t *testing.T) {
 		t.Errorf("after deleting v1 from g1, g1 label scan A = %v, want []", got)
 	}
 }
+
+// deleting a vertex does not remove its label-index entry: label scans and label
+// listings keep reporting it
+func TestDemoDelVertexLeavesIndex(t *testing.T) {
+	gdb, err := NewKVGraphDB("badger", t.TempDir())
+	if err != nil {
+		t.Fatal(err)
+	}
+	defer gdb.Close()
+	gdb.AddGraph("g")
+	gi, _ := gdb.Graph("g")
+	gi.AddVertex([]*gdbi.Vertex{{ID: "v1", Label: "A", Data: map[string]interface{}{}}})
+	if err := gi.DelVertex("v1"); err != nil {
+		t.Fatal(err)
+	}
+	if v := gi.GetVertex("v1", true); v != nil {
+		t.Fatalf("vertex still stored")
+	}
+	if got := scan(gi, "A"); len(got) != 0 {
+		t.Errorf("after DelVertex(v1), label scan A = %v, want []", got)
+	}
+	if got, _ := gi.ListVertexLabels(); len(got) != 0 {
+		t.Errorf("after DelVertex(v1), vertex labels = %v, want []", got)
+	}
+}
+
+func TestDemoDelEdgeLeavesIndex(t *testing.T) {
+	gdb, err := NewKVGraphDB("badger", t.TempDir())
+	if err != nil {
+		t.Fatal(err)
+	}
+	defer gdb.Close()
+	gdb.AddGraph("g")
+	gi, _ := gdb.Graph("g")
+	gi.AddVertex([]*gdbi.Vertex{{ID: "a", Label: "A", Data: map[string]interface{}{}}, {ID: "b", Label: "A", Data: map[string]interface{}{}}})
+	gi.AddEdge([]*gdbi.Edge{{ID: "e1", Label: "knows", From: "a", To: "b", Data: map[string]interface{}{}}})
+	if err := gi.DelEdge("e1"); err != nil {
+		t.Fatal(err)
+	}
+	if got, _ := gi.ListEdgeLabels(); len(got) != 0 {
+		t.Errorf("after DelEdge(e1), edge labels = %v, want []", got)
+	}
+}
